@@ -149,3 +149,77 @@ pub mod poly {
         polynomial::poly_interpret_eval(points, x, &mut tmp)
     }
 }
+
+/// Hook H3: drives the crate-private `Prng` (look-ahead buffer, rejection sampling,
+/// `into_new_field`) from an arbitrary byte source, for the fields named in `ops`.
+pub mod prng {
+    use crate::codec::Encode;
+    use crate::field::{Field128, Field255, Field64, FieldElement, FieldPrio2, FieldV17, FieldV193, FieldV40961};
+    use crate::prng::Prng;
+    use rand_core::Rng;
+
+    enum Any<S> {
+        P2(Prng<FieldPrio2, S>),
+        F64(Prng<Field64, S>),
+        F128(Prng<Field128, S>),
+        F255(Prng<Field255, S>),
+        V17(Prng<FieldV17, S>),
+        V193(Prng<FieldV193, S>),
+        V40961(Prng<FieldV40961, S>),
+    }
+    fn switch<F: FieldElement, S: Rng>(p: Prng<F, S>, to: &str) -> Option<Any<S>> {
+        Some(match to {
+            "FieldPrio2" => Any::P2(p.into_new_field()),
+            "Field64" => Any::F64(p.into_new_field()),
+            "Field128" => Any::F128(p.into_new_field()),
+            "Field255" => Any::F255(p.into_new_field()),
+            "FieldV17" => Any::V17(p.into_new_field()),
+            "FieldV193" => Any::V193(p.into_new_field()),
+            "FieldV40961" => Any::V40961(p.into_new_field()),
+            _ => return None,
+        })
+    }
+    fn take<F: FieldElement, S: Rng>(p: &mut Prng<F, S>, n: usize, out: &mut Vec<Vec<u8>>) {
+        for _ in 0..n {
+            out.push(p.get().get_encoded().unwrap());
+        }
+    }
+    /// Creates a `Prng` over the first field of `ops` from `stream`, then for each `(field, n)` in
+    /// `ops` switches to `field` (`into_new_field`) and draws `n` elements. Returns the encodings
+    /// of all elements drawn, in order.
+    pub fn run<S: Rng>(stream: S, ops: &[(String, usize)]) -> Option<Vec<Vec<u8>>> {
+        let mut out = Vec::new();
+        let first = ops.first()?.0.as_str();
+        let mut cur = match first {
+            "FieldPrio2" => Any::P2(Prng::from_seed_stream(stream)),
+            "Field64" => Any::F64(Prng::from_seed_stream(stream)),
+            "Field128" => Any::F128(Prng::from_seed_stream(stream)),
+            "Field255" => Any::F255(Prng::from_seed_stream(stream)),
+            "FieldV17" => Any::V17(Prng::from_seed_stream(stream)),
+            "FieldV193" => Any::V193(Prng::from_seed_stream(stream)),
+            "FieldV40961" => Any::V40961(Prng::from_seed_stream(stream)),
+            _ => return None,
+        };
+        for (field, n) in ops {
+            cur = match cur {
+                Any::P2(p) => switch(p, field)?,
+                Any::F64(p) => switch(p, field)?,
+                Any::F128(p) => switch(p, field)?,
+                Any::F255(p) => switch(p, field)?,
+                Any::V17(p) => switch(p, field)?,
+                Any::V193(p) => switch(p, field)?,
+                Any::V40961(p) => switch(p, field)?,
+            };
+            match &mut cur {
+                Any::P2(p) => take(p, *n, &mut out),
+                Any::F64(p) => take(p, *n, &mut out),
+                Any::F128(p) => take(p, *n, &mut out),
+                Any::F255(p) => take(p, *n, &mut out),
+                Any::V17(p) => take(p, *n, &mut out),
+                Any::V193(p) => take(p, *n, &mut out),
+                Any::V40961(p) => take(p, *n, &mut out),
+            }
+        }
+        Some(out)
+    }
+}
